@@ -9,7 +9,7 @@ META = dict(
     level="exploration",
     design_ref="DESIGN.md §5 C06",
     technique="end-to-end composition monitor: three real solves per case (mu0->mu1, mu1->mu2 started from (mu1,nf1), mu0->mu2) on a coarse and a 2x refined grid, operators contracted in the harness and applied to random smooth PDFs; relative L-infinity discrepancy and its decrease under refinement",
-    level_text="Real solves at LO/NLO/NNLO (iterate-exact with >=40 iterations beyond LO) for random (mu0,mu1,mu2) inside a patch, across a matching scale with the split point on either side, and for paths that first run down in scale within a patch; split and direct evolution of random smooth PDFs must agree to 1e-3 on the fine grid and the discrepancy must shrink (<=0.7x) when the grid is refined unless already below 1e-5.",
+    level_text="Real solves at LO/NLO/NNLO (iterate-exact with >=40 iterations beyond LO) for random (mu0,mu1,mu2) inside a patch, across a matching scale with the split point on either side, and for paths that first run down in scale within a patch; split and direct evolution of random smooth PDFs must agree to 1e-3 on the fine grid (or, if larger, be clearly interpolation-dominated: <=0.35x the coarse-grid value and below 1e-2) and the discrepancy must shrink (<=0.7x) when the grid is refined unless already below 1e-5.",
     level_note="Discrepancy measured per flavour on nodes with |f| > 1e-3 max|f|, relative to max|f| of that flavour. Downward matchings use the exact inversion. The tolerance 1e-3 is the interpolation accuracy of degree-3 log interpolation on >=24 points on [1e-2,1] for these smooth inputs, with the solver's integration error (1e-5) far below.",
     rule="case = (configuration, PDF replica); distinct by configuration+replica; non-trivial = mu0, mu1, mu2 pairwise different and all three solves succeeded",
     min_nontrivial=5,
@@ -173,7 +173,10 @@ def run(ck):
             worst = max(worst, d1)
             ck.case((ckey, rec["replica"]), nontrivial=len(scales) == 3, sample=dict(order=cfg["qcd"], kind=cfg["_kind"], pt=cfg["pt"], init=cfg["init"], mid=cfg["_mid"], final=cfg["_final"], coarse=d0, fine=d1))
             key = f"C06/{cfg['_kind']}/order{cfg['qcd']}/{cfg['pt']}"
-            if d1 > 1e-3:
+            # interpolation error shrinks fast under refinement (x4-x8 per doubling at degree 3); a defect does not.
+            # (first version: flat 1e-3 on the fine grid - false alarm in the thorough tier on a long LO evolution,
+            #  0.0085 -> 0.0011, i.e. pure interpolation error)
+            if d1 > 1e-2 or (d1 > 1e-3 and d1 > 0.35 * d0):
                 ck.violation(key + "/discrepancy", f"split vs direct evolution differ by {d1:.3g} (relative) on the {g1}-point grid (coarse {d0:.3g}); flavour {rec['disc'][g1]['pid']}", dict(cfg=cfg, rec=rec))
             elif not (d1 <= 0.7 * d0 or (d0 < 1e-5 and d1 < 1e-5)):
                 ck.violation(key + "/no-refinement", f"discrepancy does not shrink with the grid: {d0:.3g} ({g0} pts) -> {d1:.3g} ({g1} pts)", dict(cfg=cfg, rec=rec))
